@@ -220,6 +220,11 @@ func runC04(c *fw.Case) {
 	if direct {
 		dir = c.DiskDir()
 		wbuf = gen.Pick(r, 4096, 8192, 65536)
+	} else if c.Idx%12 == 5 {
+		// written by the BUFFERED writer (so its size is no multiple of the block size), but on a real disk: the second
+		// sequential program reads it through the direct-I/O reader factory
+		dir = c.DiskDir()
+		c.Obs("buffered_files_read_through_the_direct_io_reader", 1)
 	}
 	path := filepath.Join(dir, "f.rio")
 	opts := []recordio.FileWriterOption{recordio.Path(path), recordio.CompressionType(comp)}
@@ -419,7 +424,7 @@ func c04Sequential(c *fw.Case, path string, model []c04rec, cfg, feat string, pr
 		if st, err := os.Stat(path); err == nil && st.Size() > 256*1024 && rbuf < 4096 {
 			rbuf = 4096 // (megabyte files are not read through 1..37 byte buffers: that is millions of system calls)
 		}
-		useDirectReader := round == 1 && r.Intn(2) == 0 && filepath.Dir(path) != c.Dir
+		useDirectReader := round == 1 && (r.Intn(2) == 0 || !directWritten) && filepath.Dir(path) != c.Dir
 		ropts := []recordio.FileReaderOption{recordio.ReaderPath(path), recordio.ReaderBufferSizeBytes(rbuf)}
 		if useDirectReader {
 			rbuf = gen.Pick(r, 4096, 8192)
